@@ -30,6 +30,10 @@ def run(repo, report, tier):
     report.notes.append("Not decided: completeness of the neighbourhood enumerators (C-level DP), the 'exactly one adapter within tolerance' clause (about concrete strings).")
 
 
+class WrongMatchArguments(Unrecognised):
+    pass
+
+
 def _ml_rows(repo):
     """decision tree of one iteration of the loop over lengths in _match_to_multiple_lengths"""
     c, fn0 = repo.need_method("AdapterIndex", "_match_to_multiple_lengths")
@@ -38,6 +42,10 @@ def _ml_rows(repo):
     mm = unique(calls_to(fn0, "self._make_match"), "_match_to_multiple_lengths: call of self._make_match", repo.loc(fn0))
     if len(mm.args) != 5:
         raise Unrecognised("_match_to_multiple_lengths: self._make_match is not called with five positional arguments", repo.loc(mm))
+    if not all(isinstance(a, ast.Name) for a in mm.args[:4]):
+        # the match must be built from the recorded best candidate (adapter, length, matches, errors): a derived
+        # expression in one of these places (e.g. len(adapter) for the length) is a wrong fact, not an unknown shape
+        raise WrongMatchArguments(f"_make_match is called with {[src(a) for a in mm.args[:4]]}: the match is not built from the recorded (adapter, length, matches, errors) of the best candidate", repo.loc(mm))
     best = [name_of(a, "best-so-far argument of _make_match", repo.loc(mm)) for a in mm.args[:4]]
     aff = unique([name_of(x.args[0], "first argument of _make_affix", repo.loc(x)) for x in calls_to(fn0, "self._make_affix") if x.args], "_match_to_multiple_lengths: affix variable", repo.loc(fn0))
     fn = rename(fn0, dict(zip(best, ("best_adapter", "best_length", "best_m", "best_e")), **{aff: "affix"}))
@@ -64,7 +72,12 @@ def _ml_rows(repo):
 
 
 def r1_coordinates(repo, report):
-    fn, lp, rows = _ml_rows(repo)
+    try:
+        fn, lp, rows = _ml_rows(repo)
+    except WrongMatchArguments as w:
+        report.ob("C08.R1", "_match_to_multiple_lengths: the match is built from the best candidate's record", False, facts={"call": w.what[:200]}, expected="self._make_match(best_adapter, best_length, best_m, best_e, sequence)", loc=w.loc,
+                  why="the reported interval is not the affix length that was looked up (with an indel in the occurrence the adapter length differs from it: coordinates are off by the indel size, possibly beyond the read)")
+        raise
     report.saw(function="AdapterIndex._match_to_multiple_lengths", file="src/cutadapt/adapters.py", valuations=len(rows))
     # every path that performs a lookup must have established length <= len(sequence); a path with length <= len must not skip
     bad = []
